@@ -110,8 +110,8 @@ def sync_table_rule(prog, res, rule='sync-table'):
         st = {'record_calls': True}
         events, end, undec = a7.walk(f, model, state=st)
         acts = []
-        for nid, vals in st.get('calls', []):
-            n = f.nodes[nid]
+        for fn_, nid, vals in [(f, a_, b_) for a_, b_ in st.get('calls', [])] + list(st.get('deep_calls', [])):
+            n = fn_.nodes[nid]
             if n['k'] == 'CXXMemberCallExpr' and n['callee'].get('classq') == 'ezc3d::Header' and not n['callee'].get('const') and n['callee']['nparams'] == 1:
                 acts.append((n['callee']['name'], vals[0] if vals else None))
         return acts, end, undec
@@ -135,6 +135,7 @@ def sync_table_rule(prog, res, rule='sync-table'):
     for name, var, expect in rows:
         keys = list(var)
         bad = None
+        und_row = None
         n = 0
         for vals in itertools.product(*[var[k] for k in keys]):
             env = dict(base)
@@ -144,6 +145,9 @@ def sync_table_rule(prog, res, rule='sync-table'):
                 env['hRate'] = env['RATE']
             acts, end, undec = run(env)
             n += 1
+            if end.startswith('undecided') or end == 'loop':
+                und_row = 'with %s the walk of the updater stops at a construct the rule cannot evaluate (%s)' % ({k: env[k] for k in keys}, end)
+                break
             if end != 'NEXIT':
                 bad = 'with %s the updater ends in %s' % ({k: env[k] for k in keys}, end)
                 break
@@ -160,7 +164,9 @@ def sync_table_rule(prog, res, rule='sync-table'):
                 if s in mine and (s, v) not in need:
                     bad = 'with %s the header setter %s is called with %s' % ({k: env[k] for k in keys}, s, v)
         total += n
-        if bad:
+        if und_row and not bad:
+            res.undecided(rule, name, f.loc(), und_row + ' [shape not read by the rule]', function=f.sig, expr=name)
+        elif bad:
             res.viol(rule, name, f.loc(), bad, function=f.sig, expr=name)
         else:
             res.ok(rule, name, f.loc(), 'setter called with the source value on every one of %d model rows where source and header differ' % n, function=f.sig, expr=name)
